@@ -856,7 +856,10 @@ Inductive enc_kind := KStreams | KMatrix | KTail | KVector | KTags | KTagValues 
 Record case := {
   c_id : Z;
   c_kind : enc_kind;
-  c_batches : list (list rrow);    (* labels of each row in the order observed in the output (see harness) *)
+  c_rows : list (list rrow);       (* labels of each row in the order observed in the output (see harness) *)
+  c_batches : list (list entry);   (* the rows with the number texts their encoder prints (computed once, at decoding) *)
+  c_series : list pseries;         (* Prometheus kinds: batch = series, row = point (T in r_ts, V in r_bits) *)
+  c_scalar : psample;
   c_blbls : list (list (string * string));  (* Prometheus kinds: one label set per batch (= series) *)
   c_items : list string;           (* list endpoints: tag names, label values, stored label documents *)
   c_order : list N;                (* vector: fingerprints in the order of the result array *)
@@ -866,21 +869,29 @@ Record case := {
 (* the header test of the code under /repo today (after fix #23) *)
 Definition cur_hdr : hdr_test := HdrFirstOrFp.
 
-(* Prometheus kinds travel as batches: batch = series, row = point (T in r_ts, V in r_bits) *)
-Definition case_series (c : case) : list pseries :=
-  map (fun bl => {| pr_lbls := snd bl; pr_pts := map prom_point_of (fst bl) |})
-      (combine (c_batches c) (c_blbls c)).
-Definition case_scalar (c : case) : psample :=
-  match c_batches c with (r :: _) :: _ => prom_scalar_of r | _ => {| ps_t := ""; ps_v := "" |} end.
+Definition fill_rows (k : enc_kind) (bs : list (list rrow)) : list (list entry) :=
+  match k with
+  | KMatrix => rows_with matrix_row bs
+  | KVector => rows_with vector_row bs
+  | _ => rows_with log_row bs
+  end.
+Definition series_of (bs : list (list rrow)) (ls : list (list (string * string))) : list pseries :=
+  map (fun bl => {| pr_lbls := snd bl; pr_pts := map prom_point_of (fst bl) |}) (combine bs ls).
+Definition fill_series (k : enc_kind) (bs : list (list rrow)) (ls : list (list (string * string))) : list pseries :=
+  match k with KPromMatrix | KPromVector => series_of bs ls | _ => [] end.
+Definition fill_scalar (k : enc_kind) (bs : list (list rrow)) : psample :=
+  match k, bs with KPromScalar, (r :: _) :: _ => prom_scalar_of r | _, _ => {| ps_t := ""; ps_v := "" |} end.
+Definition case_series (c : case) : list pseries := c_series c.
+Definition case_scalar (c : case) : psample := c_scalar c.
 Definition case_msg (c : case) : string := match c_items c with m :: _ => m | [] => "" end.
 
 Definition model_bytes (c : case) : string :=
   match c_kind c with
-  | KStreams => render (enc_streams cur_hdr (rows_with log_row (c_batches c)))
-  | KMatrix => render (enc_matrix (rows_with matrix_row (c_batches c)))
-  | KTail => render (enc_tail cur_hdr (rows_with log_row (c_batches c)))
-  | KVector => render (enc_vector (c_order c) (rows_with vector_row (c_batches c)))
-  | KNumFmt => render (enc_numfmt (List.concat (c_batches c)))
+  | KStreams => render (enc_streams cur_hdr (c_batches c))
+  | KMatrix => render (enc_matrix (c_batches c))
+  | KTail => render (enc_tail cur_hdr (c_batches c))
+  | KVector => render (enc_vector (c_order c) (c_batches c))
+  | KNumFmt => render (enc_numfmt (List.concat (c_rows c)))
   | KTags => render (enc_tempo_tags (c_items c))
   | KTagValues => render (enc_tempo_values (c_items c))
   | KLabels => render (enc_labels (c_items c))
@@ -901,13 +912,13 @@ Fixpoint all_some {A} (l : list (option A)) : option (list A) :=
 (* None: the property does not speak about this case (a stored label document that is not JSON) *)
 Definition spec_doc (c : case) : option json :=
   match c_kind c with
-  | KStreams => Some (doc_streams (rows_with log_row (c_batches c)))
-  | KMatrix => Some (doc_matrix (rows_with matrix_row (c_batches c)))
-  | KTail => Some (doc_tail (rows_with log_row (c_batches c)))
-  | KVector => if is_perm_of (c_order c) (map e_fp (last_values (rows_matrix (rows_with vector_row (c_batches c)))))
-               then Some (doc_vector (c_order c) (rows_with vector_row (c_batches c)))
+  | KStreams => Some (doc_streams (c_batches c))
+  | KMatrix => Some (doc_matrix (c_batches c))
+  | KTail => Some (doc_tail (c_batches c))
+  | KVector => if is_perm_of (c_order c) (map e_fp (last_values (rows_matrix (c_batches c))))
+               then Some (doc_vector (c_order c) (c_batches c))
                else Some JNull      (* some series is missing or repeated: never equal to a body *)
-  | KNumFmt => Some (doc_numfmt (List.concat (c_batches c)))
+  | KNumFmt => None   (* not a response: only the transcription of the printers is compared *)
   | KTags => Some (doc_tempo_list "tagNames" (c_items c))
   | KTagValues => Some (doc_tempo_list "tagValues" (c_items c))
   | KLabels => Some (doc_labels (c_items c))
@@ -924,7 +935,7 @@ Definition model_mismatch (c : case) : bool := negb (String.eqb (model_bytes c) 
 (* the property itself, evaluated on what the implementation sent: one JSON document, equal (up to
    member order) to the intended document of the rows *)
 Definition spec_violation (c : case) : bool :=
-  if forallb (forallb no_fail) (rows_with log_row (c_batches c)) then
+  if forallb (forallb no_fail) (c_batches c) then
     match spec_doc c with
     | Some want => match parse_bytes (c_out c) with
                    | Some d => negb (json_eq d want)
@@ -939,7 +950,7 @@ Definition mismatches (cs : list case) : list Z := map c_id (filter model_mismat
 Definition spec_violations (cs : list case) : list Z := map c_id (filter spec_violation cs).
 Definition unreadable (cs : list case) : list Z := map c_id (filter unreadable_case cs).
 Definition float_disagreements (cs : list case) : list Z :=
-  map c_id (filter (fun c => negb (forallb (forallb row_sf_agrees) (c_batches c))) cs).
+  map c_id (filter (fun c => negb (forallb (forallb row_sf_agrees) (c_rows c))) cs).
 
 (* decoding of a transported case:
    id | kind | #labelsets { #pairs { k | v } } | #batches { labelset | #entries { fp | labelset | ts | err | msg | bits } } | #items { item } | #order { fp } | out *)
@@ -1035,7 +1046,9 @@ Definition decode_case (x : lbytes) : option case :=
         match take_items (dec_nat ni) r'' with
         | Some (its, no :: r3) =>
           match take_items (dec_nat no) r3 with
-          | Some (ord, [o]) => Some {| c_id := dec_Z id; c_kind := k; c_batches := map fst bs; c_blbls := map snd bs; c_items := its;
+          | Some (ord, [o]) => Some {| c_id := dec_Z id; c_kind := k; c_rows := map fst bs; c_batches := fill_rows k (map fst bs);
+                                       c_series := fill_series k (map fst bs) (map snd bs); c_scalar := fill_scalar k (map fst bs);
+                                       c_blbls := map snd bs; c_items := its;
                                        c_order := map (fun x => dec_N x 0) ord; c_out := unesc o |}
           | _ => None
           end
